@@ -20,7 +20,10 @@ Cases == {[kinds |-> k, collect |-> c, corr |-> co, dup |-> FALSE] :
 \* condition, or an error record
 DropCases == {[kinds |-> k, collect |-> c, corr |-> "none", dup |-> FALSE] :
                k \in UNION {[1..n -> {"ok1", "okdrop", "failP"}] : n \in 1..3}, c \in BOOLEAN}
-ASSUME LET S == SetToSeq({c @@ [noteq |-> FALSE] : c \in Cases \cup DropCases} \cup NeqCases) IN ndJsonSerialize(IOEnv.VERIF_OUT, [i \in 1..Len(S) |-> [id |-> i] @@ S[i]])
+\* failM after rules whose field WAS mapped: what the mapping of one rule leaves in the pipeline's tracking is not the next rule's
+StrictCases == {[kinds |-> k, collect |-> c, corr |-> "none", dup |-> FALSE] :
+                 k \in UNION {[1..n -> {"ok1", "failM", "okstate"}] : n \in 1..3}, c \in BOOLEAN}
+ASSUME LET S == SetToSeq({c @@ [noteq |-> FALSE] : c \in Cases \cup DropCases \cup StrictCases} \cup NeqCases) IN ndJsonSerialize(IOEnv.VERIF_OUT, [i \in 1..Len(S) |-> [id |-> i] @@ S[i]])
 Init == x = 0
 Next == UNCHANGED x
 =============================================================================
